@@ -162,7 +162,7 @@ def run_check(pid: str, tier: str) -> int:
         "violations": new,
         "known_findings_reproduced": sorted(s for s in by_sig if s in known),
     }
-    EVIDENCE.mkdir(exist_ok=True)
+    EVIDENCE.mkdir(parents=True, exist_ok=True)
     (EVIDENCE / f"{pid}.json").write_text(json.dumps(ev, indent=1))
     summary = {k: v for k, v in cov.items() if k != "samples" and not isinstance(v, (list, dict))}
     print(f"{pid} {tier} seed={seed}: {json.dumps(js(summary))} wall={ev['wall_s']}s violations={new}")
